@@ -163,13 +163,19 @@ def _add_zids(zdir: Path, page: Page) -> None:
             zid = zid_manager.get_next(note.create_date)
             note.zid = zid
             old_body = note.body.lstrip()
-            first_word = old_body.split(" ")[0]
+            # NOTE: Only the note's first line is looked at (the date might be
+            # the only word on it), exactly like _add_zid_to_line does.
+            first_line, newline, other_lines = old_body.partition("\n")
+            if first_line.endswith("\r"):
+                first_line, newline = first_line[:-1], f"\r{newline}"
+            first_word = first_line.split(" ")[0]
             # Only drop the note's real create date (see _add_zid_to_line).
             if (
                 zdt.is_long_date_spec(first_word)
                 and first_word == note.create_date.isoformat()
             ):
-                old_body = " ".join(old_body.split(" ")[1:])
+                first_line = " ".join(first_line.split(" ")[1:])
+            old_body = f"{first_line}{newline}{other_lines}"
             note.body = f"{zid} {old_body}"
             new_notes.append(note)
     if new_notes:
